@@ -75,7 +75,7 @@ def main():
     mod = importlib.import_module(res["module"])
     ob = [o for o in mod.OBLIGATIONS if o.name == res["obligation"]][0]
     open_findings = json.loads(os.environ.get("VERIF_OPEN_FINDINGS", "[]"))
-    params = dict(res["params"], tier=res["tier"])
+    params = dict(res["params"], tier=res["tier"], prop=getattr(mod, "PROPERTY", res["module"][-3:].upper()))
     t0 = time.time()
     out = []
     for p in res["paths"]:
